@@ -153,6 +153,11 @@ func junkBytes(prior string, like any) []byte {
 		return mk(n+3, n+3)
 	case "sparecap":
 		return mk(1, n+8)
+	case "tightcap": // shorter than its capacity, and the capacity smaller than what arrives
+		if n >= 3 {
+			return mk(1, n-1)
+		}
+		return mk(0, 1)
 	}
 	return nil
 }
@@ -232,6 +237,11 @@ func scalarCodec(t string, n int) wcodec {
 				return b
 			case "sparecap":
 				return make(pk.BitSet, 1, n+4)
+			case "tightcap":
+				if n >= 3 {
+					return make(pk.BitSet, 1, n-1)
+				}
+				return make(pk.BitSet, 0, 1)
 			}
 			return nil
 		}}
@@ -349,6 +359,12 @@ func (a wary[L, T, P]) dest(prior string, like any) (pk.FieldDecoder, func() any
 		s = junk(n+2, n+2)
 	case "sparecap":
 		s = junk(1, n+6)
+	case "tightcap":
+		if n >= 3 {
+			s = junk(1, n-1)
+		} else {
+			s = junk(0, 1)
+		}
 	}
 	return pk.Ary[L]{Ary: &s}, func() any {
 		out := make([]any, len(s))
